@@ -15,9 +15,9 @@ META = {
     "engine": "E1 runtime scenario engine",
     "rule": (
         "seeded random histories of 2-5 runner generations (a new ServiceRunner each, or - 30 % - the same instance accepting again); each generation: a payload population (none / "
-        "sleeping and spinning coroutines / blocked threads / trio payloads that keep calling execute(flavour=asyncio) / 1-3 submitter threads adopting payloads "
+        "sleeping and spinning coroutines / 100-200 sleeping coroutines / blocked threads / trio payloads that keep calling execute(flavour=asyncio) / 1-3 submitter threads adopting payloads "
         "concurrently; before a third of the shutdowns 1-2 coroutine payloads that answer their cancellation by raising or by returning a value), 0-3 concurrent accept() attempts by other runners while it runs, accept_delay "
-        "0.01-0.3 s, and an ending in {shutdown from an outside thread, from a thread payload, from a worker thread of a trio / asyncio payload that waits for it, two or three "
+        "0-0.3 s, and an ending in {shutdown from an outside thread, from a thread payload, from a worker thread of a trio / asyncio payload that waits for it, two or three "
         "concurrent shutdowns, SIGINT to the main thread, KeyboardInterrupt raised in an asyncio / thread / "
         "trio payload, Exception failure, orphaned return, BaseException failure, shutdown racing a failing "
         "payload by -30..+30 ms}; line-level delay injection (with longer delays inside stop / shutdown); kind=late_stop: six forced schedules (a shutdown() preempted inside stop() before its 1st / 2nd / 3rd close request while the runtime ends by another shutdown or by a failure, resuming between the loop's last turn and loop.close()); kind=polling: the accept loop alone under a "
@@ -41,16 +41,24 @@ def plan(tier, seed):
 
 
 def gen_generation(rnd, index, ending):
-    gen = {"accept_delay": rnd.choice([0.01, 0.03, 0.05, 0.1, 0.3]), "payloads": [], "services": [], "grace": 0.15}
+    # accept_delay 0: the accept loop polls without pausing (a legal, if wasteful, setting)
+    gen = {"accept_delay": rnd.choice([0.01, 0.03, 0.05, 0.1, 0.3, 0, 0]), "payloads": [], "services": [], "grace": 0.15}
     script = [["wait_running", 10]]
-    population = rnd.choice(["none", "sleepers", "sleepers", "blocked", "mixed", "submitters", "cross"])
+    population = rnd.choice(["none", "sleepers", "sleepers", "blocked", "mixed", "submitters", "cross", "many"])
+    if population == "many":
+        # a large population of sleeping coroutines: ending the runtime must not take time per payload
+        for i in range(rnd.choice([100, 150, 200])):
+            gen["payloads"].append({"id": "m%d" % i, "flavour": rnd.choice(["asyncio", "asyncio", "trio"]), "when": "queued", "program": [["block"]], "cleanup": {"kind": "none"}})
     if population == "cross":
         # trio payloads that keep calling into the asyncio runner: one of them is usually inside execute() when the end comes
         for i in range(rnd.randint(1, 3)):
             gen["payloads"].append({"id": "xs%d" % i, "flavour": "asyncio", "executed": True, "cleanup": {"kind": "none"},
                                     "program": [["sleep", rnd.choice([0.01, 0.02, 0.04])], ["return", "none"]]})
-            gen["payloads"].append({"id": "cross%d" % i, "flavour": "trio", "when": "queued", "cleanup": {"kind": "none"},
+            # adopted once the runtime runs: queued before start, a trio payload that calls into asyncio while the start-up is
+            # still unqueueing deadlocks it (the recorded finding C10/startup-unqueue-deadlock; seen here in a thorough sweep)
+            gen["payloads"].append({"id": "cross%d" % i, "flavour": "trio", "cleanup": {"kind": "none"},
                                     "program": [["sleep", 0.02], ["exec_loop", "xs%d" % i, 400, rnd.choice([0.0, 0.005])]]})
+            script.append(["adopt", "cross%d" % i])
     if population in ("sleepers", "mixed", "submitters"):
         for i in range(rnd.randint(1, 4)):
             flavour = rnd.choice(common.COROUTINE)
@@ -299,6 +307,10 @@ def judge(case, run, result):
                              % (g, ending, meta["population"], (": " + run.stacks[-1200:]) if hung else ""), None))
             break
         result.count("ending_" + ending)
+        if meta["population"] == "many":
+            result.count("endings_with_100_to_200_sleeping_coroutines")
+        if gen["accept_delay"] == 0:
+            result.count("generations_with_accept_delay_0")
         fails = [e for e in run.of("fail", gen=g) if e["seq"] < ended["seq"]]
         if ending in ("shutdown_outside", "shutdown_thread", "shutdown_double", "shutdown_trio_worker", "shutdown_asyncio_worker", "sigint", "kbint_asyncio", "kbint_thread", "kbint_trio"):
             if meta["population"] == "cross" and run.of("call", gen=g, op="execute"):
@@ -361,7 +373,7 @@ def run_shard(spec):
 
 def finish(total, tier):
     need = ["histories_completed", "polling_loops_checked", "restarts_of_the_same_runner_instance", "concurrent_accepts_rejected", "shutdown_calls_returned", "race_outcome_returned", "forced_late_stop_schedules_checked",
-            "endings_with_trio_payloads_calling_into_asyncio", "shutdowns_with_asyncio_payload_failing_on_cancellation", "shutdowns_with_trio_payload_failing_on_cancellation"]
+            "endings_with_trio_payloads_calling_into_asyncio", "endings_with_100_to_200_sleeping_coroutines", "generations_with_accept_delay_0", "shutdowns_with_asyncio_payload_failing_on_cancellation", "shutdowns_with_trio_payload_failing_on_cancellation"]
     need += ["ending_" + e for e in ENDINGS] + ["restarts_after_" + e for e in ENDINGS]
     for name in need:
         if not total.counters.get(name) and not total.violations:
